@@ -1,8 +1,11 @@
 #!/usr/bin/env python3
 import json, sys
 pid = sys.argv[1]
-wt = '/tmp/mut/' + pid
+tag = sys.argv[2] if len(sys.argv) > 2 else pid
+avoid = sys.argv[3] if len(sys.argv) > 3 else ''
+wt = '/tmp/mut/' + tag
 p = [json.loads(l) for l in open('/verif/properties.jsonl') if json.loads(l)['id'] == pid][0]
+avoid_txt = ('IMPORTANT: an earlier experiment already used the following change; yours must be of a DIFFERENT kind, in a different function or mechanism: ' + avoid + '\n\n') if avoid else ''
 print(f"""You are helping to evaluate a verification effort for the open-source Python library alexgorji/musicxml (a pure-Python MusicXML 4.0 builder and parser whose element classes are generated from the XSD and validated by an in-repo content-model matcher).
 
 You have your own scratch git worktree of the repository at {wt} (detached HEAD). Work ONLY inside {wt}. Never read, write or run anything under /repo or /verif. Do not commit anything.
@@ -20,6 +23,6 @@ Your task: produce ONE realistic change (a plausible bug a maintainer could intr
  2. the property above is BROKEN by the change, but only in a way that needs something specific to manifest — for example an unusual input or element type, a multi-step sequence of operations, a particular order of calls, a failure at a particular point, or two cooperating code sites that each look fine alone. It must NOT be something that ordinary use of the library (building a simple score, the README examples) would expose at once.
  3. Note that the unmodified library already has some imperfections with respect to this property; your change must introduce a NEW violation: write a small demonstration program `demo.py` (plain Python, run as `cd {wt} && /venv/bin/python -W ignore demo.py`) that exits 0 ("property holds on this scenario") on the UNMODIFIED tree and exits 1 printing what went wrong on the MODIFIED tree. The demo must check the property's observable behaviour through the public API (add_child, remove, replace_child, xml_* / attribute assignment, to_string, write, parse_musicxml, copy.deepcopy, constructors ...), not internal fields.
 
-Procedure: read the relevant code; design the change; verify on the unmodified tree that demo.py exits 0 (use `git stash` / `git diff` to switch); apply the change; verify the test suite passes and demo.py exits 1. Iterate until all of that is confirmed by actually running it.
+Procedure: read the relevant code; design the change; verify on the unmodified tree that demo.py exits 0 (to switch between the unmodified and the modified tree save your change with `git diff > {wt}_change.diff`, revert with `git checkout -- .`, re-apply with `git apply {wt}_change.diff`, all inside your own worktree; NEVER use `git stash`: the stash is shared with other worktrees); apply the change; verify the test suite passes and demo.py exits 1. Iterate until all of that is confirmed by actually running it.
 
-Deliverables (write them into {wt}/_seed/): `patch.diff` (output of `git diff` for the library change only, applicable with `git apply` at the repository root), `demo.py` (copy), and `meta.json` with keys: property ("{pid}"), summary (what the change is, 1-2 sentences), needs (what specific circumstances are needed for it to manifest), files (changed files), ran (the exact commands you ran and their observed results). Leave the worktree with the change applied. In your final answer, give a 5-line summary: the change, why tests still pass, what the demo does, and the confirmation results.""")
+{avoid_txt}Deliverables (write them into {wt}/_seed/): `patch.diff` (output of `git diff` for the library change only, applicable with `git apply` at the repository root), `demo.py` (copy), and `meta.json` with keys: property ("{pid}"), summary (what the change is, 1-2 sentences), needs (what specific circumstances are needed for it to manifest), files (changed files), ran (the exact commands you ran and their observed results). Leave the worktree with the change applied. In your final answer, give a 5-line summary: the change, why tests still pass, what the demo does, and the confirmation results.""")
